@@ -3189,3 +3189,69 @@ func ruleQueryOptionsReachSearcher(r *Report, rule string, allow map[string]stri
 		undecidedf("query option rule matched %d fields", n)
 	}
 }
+
+// ruleNestedAdvanceTargetsJoinLevel (K5dep): in NestedConjunctionSearcher.Advance
+// the id each child is advanced to must be derived from the JOIN level of the
+// searcher (s.joinIdx): a match is decided per join-level ancestor and needs
+// every child's documents below that ancestor, including documents with smaller
+// ids than the requested target and documents on sibling paths.  A target
+// derived from the child's own depth (or the raw target id) skips those and
+// loses matches at or after the requested id (found as F15).
+func ruleNestedAdvanceTargetsJoinLevel(r *Report, rule string) {
+	p := r.P
+	fi := p.MustFunc("search/searcher.(*NestedConjunctionSearcher).Advance")
+	r.Fn(fi)
+	info := fi.Pkg.TypesInfo
+	d := newDeps(info, fi.Decl.Body)
+	n := 0
+	for _, c := range callsIn(fi.Decl.Body) {
+		f := callee(info, c)
+		if f == nil || f.Name() != "Advance" || len(c.Args) != 2 {
+			continue
+		}
+		// a child searcher's Advance (receiver is not s itself)
+		if sel, ok := ast.Unparen(c.Fun).(*ast.SelectorExpr); ok && objOf(info, sel.X) == recvObj(fi) {
+			continue
+		}
+		n++
+		_ = d
+		// local backward slice over plain variable assignments (the receiver is not followed)
+		seen := map[types.Object]bool{}
+		mentions := false
+		var follow func(e ast.Expr)
+		follow = func(e ast.Expr) {
+			ast.Inspect(e, func(x ast.Node) bool {
+				if sel, ok := x.(*ast.SelectorExpr); ok && isField(info, sel, "NestedConjunctionSearcher", "joinIdx") {
+					mentions = true
+				}
+				if id, ok := x.(*ast.Ident); ok {
+					o := info.ObjectOf(id)
+					if o == nil || seen[o] || o == recvObj(fi) {
+						return true
+					}
+					if _, isVar := o.(*types.Var); !isVar {
+						return true
+					}
+					seen[o] = true
+					ast.Inspect(fi.Decl.Body, func(y ast.Node) bool {
+						if as, ok := y.(*ast.AssignStmt); ok {
+							for i, l := range as.Lhs {
+								if objOf(info, l) == o && i < len(as.Rhs) {
+									follow(as.Rhs[i])
+								}
+							}
+						}
+						return true
+					})
+				}
+				return true
+			})
+		}
+		follow(c.Args[1])
+		r.Ob(rule, fi.Name+"/child-advance-target-derived-from-join-level", c.Pos(), mentions,
+			"the id passed to "+exprShort(c)+" is not computed from s.joinIdx: children must be advanced to the join-level ancestor of the requested id (all their documents below it take part in the match), not to the requested id or an ancestor chosen by the child's own depth")
+	}
+	if n < 1 {
+		undecidedf("%s: no child Advance call found", fi.Name)
+	}
+}
